@@ -61,7 +61,7 @@ LEVEL_NOTE = ("Recursive element type (struct Node { int v; Array<Node> kids; }:
               "constructor (operator=(Array<K>) only in the Array<Node> histories), operator=(Var), map / map_ / with, initializer lists longer than 4 (the initializer-list constructor / operator= / append with 0..4 elements run as K ops newil / asgil / appil on the model steps of Array(p,n) / copy(p,n) / append(p,n), the same statements in the source), "
               "operator< of arrays, join, deprecated destroy()/ptr conversions, shuffle. sort is modelled on the element sequence "
               "(reads/assignments); its element temporaries (pivot copy T p = a[n/2] per pass, swap's T A = a) are kept by a ledger run "
-              "function qsortListT (live, copies made, destroyed, peak): sort_temporaries_destroyed / sort_counted_lifecycle prove that it computes qsortList's sequence, "
+              "function qsortListT (live, copies made, destroyed, peak): sort_temporaries_destroyed / sort_counted_lifecycle / sort_temporaries_bounded prove that it computes qsortList's sequence, that never more than log2(n)+1 temporaries are alive, "
               "that on return the instance counter is back where it started with every temporary destroyed, each value present as often as before, and that the block's live counter after sortB is the ledger's; "
               "the ledger is tied to the code by the K op sortc (counted type: number of copy constructions during the sort and the peak of live objects are compared exactly). For the "
               "rc++/rc-- pairs of temporaries inside clone()/concat(), which the model collapses, construct-once/destroy-once rests on LSan/K only. The history "
